@@ -278,3 +278,22 @@ PROPS["C12"] = dict(
     min_labels=dict(quick=dict(set=50000, mutated_pointer_fails=100000, mutated_pointer_resolves=6000)),
     assumptions=["root is not JSON null (json_pointer_get refuses a NULL object)", "set indices in (length+3, SIZE_MAX/16) are not generated (would need real memory)"],
 )
+
+PROPS["C13"] = dict(
+    harness="C13_patch.cpp", level="exploration",
+    technique="model-based property testing against an RFC 6902 reference applier on plain values: operation sequences generated against the evolving reference document (valid and deliberately failing), corrupted/malformed patches, both calling forms; invariants: patch document unchanged, result independent of patch and source under in-place mutation; ASan + allocation accounting; libFuzzer on generated and parsed patches",
+    level_text="documents with adversarial keys and patches of 1..9 operations whose paths are chosen in the reference's current state (added-then-modified "
+               "locations, copies then mutated, moves inside one array, onto itself, into a child, string-prefix-but-not-location-prefix, escaped keys, '-', "
+               "index = length, nulls, root replacement/removal): json_patch_apply must succeed exactly when the reference does, with the same document "
+               "(member order not significant), or fail reporting the index of the first failing operation; the patch document must be bit-identical "
+               "afterwards, also after every container of the result has been mutated in place; corrupted patches (wrong types, missing/null fields, "
+               "unknown ops, non-object elements, non-array patch) must fail cleanly",
+    level_note="test uses the library's own value equality (C09: integer and double are different kinds); once the root is removed or JSON null only 'add' at \"\" is exercised (json-c represents both as a NULL root; neither the RFC nor json_patch.h settles other operations there)",
+    rule="(document, patch, calling form); non-trivial = a later op's path passes through a location written by an earlier op, or a token needs escaping, or an array-end index is used, or the patch is corrupted; distinct by hash of (document, patch)",
+    quick=[dict(mode="conform", cases=60000, workers=8, maxbytes=3000), dict(mode="malformed", cases=40000, workers=8, maxbytes=3000)],
+    thorough=[dict(mode="conform", cases=4000000, workers=16, maxbytes=5000), dict(mode="malformed", cases=2000000, workers=16, maxbytes=5000),
+              dict(mode="conform", fuzz=True, secs=300, jobs=6, max_len=1024), dict(mode="malformed", fuzz=True, secs=300, jobs=5, max_len=1024),
+              dict(mode="parsed", fuzz=True, secs=300, jobs=5, max_len=512)],
+    min_labels=dict(quick=dict(escaped_token=10000, array_end=8000, later_op_through_written_location=4000, failing_op=10000, corrupted=30000)),
+    assumptions=["member names and pointer strings without NUL (C strings in the API)"],
+)
